@@ -234,13 +234,7 @@ def session_issued_accepted_goal : Prop :=
     pickInput form h1 h2 = some t →
     check d now' (match sc with | some c => some c | none => cookie) fresh' form h1 h2 = .accept
 
-/-- **model = specification** (stated, not proved here — the specification is applied to the real
-    implementation as the oracle on every run): unless the presented token decodes to the server's own fresh
-    randomness, the model accepts exactly when `Spec.accepts` does. -/
-def check_eq_spec_goal : Prop :=
-  ∀ (d : Bool) (now : Int) (cookie : Option Str) (fresh : Bytes) (form h1 h2 : Option Str),
-    (∀ inp r, pickInput form h1 h2 = some inp → decode d now inp = some r → r.token ≠ fresh) →
-    (check d now cookie fresh form h1 h2 = .accept ↔ Spec.accepts d cookie form h1 h2 = true)
+-- model = specification: `check_eq_spec` in `C24/SpecLink.lean`.
 
 /-! ### non-vacuity -/
 
